@@ -9,9 +9,13 @@ Tier K on the regenerated tables (re-extracted from the compiled code on every r
 * `C04_size`          : the side is 17 + 4 * version.
 * `C04_format_injective` : the 32 format words are distinct, so reading the format information back
                         determines level and mask.
-Symbolic, for every symbol side `n ≥ 21` and every 15-bit word:
-* `C04_format_positions` : after `create_matrix_format_info`, reading the modules at the ISO positions
-                        of Figure 25 (both copies, most significant bit first) gives the word back.
+Symbolic (tier N position checker + induction over stores and mask sweeps):
+* `C04_format_in_symbol` : in EVERY symbol the model builder returns, each ISO position of Figure 25
+                        (both copies) holds the corresponding bit of the BCH word of the reported
+                        (level, mask); masks never touch these cells.
+* `C04_version_cells`  : the version-information cells of the blank symbol of every version carry the
+                        BCH(18,6) word; they are never rewritten (`C15_labels`: type Version, only
+                        Data cells are masked / placed).
 * `C04_fields`        : the fields reported by the model builder equal the forced options, level
                         defaults to Q, mode defaults to the classifier's choice.
 -/
@@ -19,6 +23,7 @@ import FastQr.Finite.Tables
 import FastQr.Finite.Template
 import FastQr.Proofs.Lift
 import FastQr.Model.Build
+import FastQr.Proofs.BuildSound
 
 namespace FastQr.Props.C04
 open FastQr Model Spec Finite Proofs
@@ -55,6 +60,19 @@ theorem C04_fields (inp : List Nat) (o : Opts) (b : Built)
     refine ⟨rfl, rfl, hv, ?_⟩
     intro m hm
     simp [createMatrix, placeOnMatrix, hm]
+
+/-- **C04 (format information in every built symbol)**: for EVERY input and option combination for which
+the model builder returns a symbol, the i-th module of Figure 25's position list (copy 1: i < 15,
+copy 2: 15 ≤ i < 30, most significant bit first) is a Format-typed module holding bit 14 - (i mod 15)
+of the format word of the REPORTED (level, mask) — which is the BCH(15,5) word by `C04_format_table` -/
+theorem C04_format_in_symbol (inp : List Nat) (o : Opts) (ho : LegalOpts o) (b : Built)
+    (h : (build inp o).val = .ok b) (i r c : Nat)
+    (hi : (Regions.formatCells (Regions.side b.version))[i]? = some (r, c))
+    (hr : r < Regions.side b.version) (hc : c < Regions.side b.version) :
+    b.qr.get r c = mk ((BCH.format15 b.ecl b.mask >>> (14 - i % 15)) % 2 == 1) tFormat := by
+  have hm := (build_final inp o ho b h).2.1
+  rw [← C04_format_table b.ecl hm]
+  exact (built_props inp o ho b h hr hc).2.2.2 i hi
 
 /-- **C04 (version information in the symbol)**: in the blank symbol of every version 7..40 the 36
 version-information cells carry the BCH(18,6) word of the version at the positions of Figure 26
